@@ -67,6 +67,61 @@ class C07(Property):
         rng.shuffle(fields)
         return gen.options(gen.con(*fields), descr="Lc7n"), alts, nulls, leaves, node, fields
 
+    def gen_group_cases(self, rng, k):
+        """A choice where some alternatives are GROUPS of two required items: a line holding a proper part of a group next to
+        a complete other alternative mixes two alternatives just as well (the group's present members must not be dropped)."""
+        names = gen.Names(rng)
+        def leaf(i):
+            if rng.random() < 0.5:
+                return gen.req_flag(names.named(help_p=0.0), gen.vnum(100 + i))
+            return gen.arg(names.named(help_p=0.0), "V", "string")
+        nalt = rng.choice([2, 3, 3])
+        alts, members = [], []
+        gi = rng.randrange(nalt)
+        for i in range(nalt):
+            if i == gi or rng.random() < 0.3:
+                ms = [leaf(10 * i), leaf(10 * i + 1)]
+                alts.append(gen.con(*ms)); members.append(ms)
+            elif i == nalt - 1 and rng.random() < 0.3:
+                f = gen.flag(names.named(help_p=0.0), gen.vnum(100 + 10 * i), gen.vnum(200 + 10 * i))
+                alts.append(f); members.append([f])
+            else:
+                l = leaf(10 * i)
+                alts.append(l); members.append([l])
+        choice = gen.alt(*alts)
+        wrap = rng.choice(["bare", "optional", "many"])
+        node = choice if wrap == "bare" else gen.wrap(wrap, choice)
+        sw = gen.flag(names.named(help_p=0.0))
+        fields = [node, sw]
+        rng.shuffle(fields)
+        opts = gen.options(gen.con(*fields), descr="Lc7g")
+        out = []
+        for j in range(4):
+            kind = rng.choice(["full", "part+other", "full+other", "part"])
+            groups = [i for i in range(nalt) if len(members[i]) == 2]
+            g = rng.choice(groups)
+            chunks = []
+            def occ_of(m, t):
+                if m["k"] == "flag":
+                    return [gen.spell_flag(rng, m)]
+                return gen.spell_arg(rng, m, b"v%d" % t)[1]
+            if kind == "full":
+                a = rng.randrange(nalt)
+                chunks = [occ_of(m, t) for t, m in enumerate(members[a])]
+            else:
+                part = [rng.choice(members[g])] if kind.startswith("part") else members[g]
+                chunks = [occ_of(m, t) for t, m in enumerate(part)]
+                if kind.endswith("other"):
+                    o = rng.choice([i for i in range(nalt) if i != g])
+                    chunks += [occ_of(m, 5 + t) for t, m in enumerate(members[o])]
+            if rng.random() < 0.4:
+                chunks.append([gen.spell_flag(rng, sw)])
+            rng.shuffle(chunks)
+            argv = [x for c in chunks for x in c]
+            out.append(Case("g%dq%d" % (k, j), opts, argv, tags={"wrap": "group", "gwrap": wrap, "kind": kind, "picks": [g],
+                                                                 "expect": [], "field": 0, "nfields": 2, "distinct": 1}))
+        return out
+
     @staticmethod
     def occ(rng, alt, i):
         """(items, expected value sexp) of one occurrence of alternative alt"""
@@ -99,6 +154,10 @@ class C07(Property):
                     cases.append(Case("g%dn%d" % (k, j), opts, argv,
                                       tags={"wrap": "nullable", "picks": [] if pick is None else [pick], "expect": [want],
                                             "field": fields.index(node), "nfields": len(fields), "distinct": 0 if pick is None else 1}))
+                k += 1
+                continue
+            if rng.random() < 0.12:
+                cases.extend(self.gen_group_cases(rng, k))
                 k += 1
                 continue
             opts, alts, wrap, node, fields = self.gen_def(rng)
@@ -162,6 +221,24 @@ class C07(Property):
             cls = compare.impl_class(ic)
             t = c.tags
             wrap, picks, expect = t["wrap"], t["picks"], t["expect"]
+            if wrap == "group":
+                key = "group:%s:%s" % (t["gwrap"], t["kind"])
+                dist[key] = dist.get(key, 0) + 1
+                nontrivial.append(c.line())
+                kind, gw = t["kind"], t["gwrap"]
+                if kind == "full" and cls != "OK":
+                    out.append(Finding("violation", c, "the line holds the items of exactly one alternative (a complete one) but the "
+                                                       "run fails: " + common.show(ic)))
+                if kind in ("part", "part+other") and cls == "OK":
+                    out.append(Finding("violation", c, "the line holds only a part of a group alternative%s, yet the run yields a "
+                                                       "value -- the present member was silently ignored: %s"
+                                       % (" next to a complete other alternative" if kind == "part+other" else "", ic[1])))
+                if kind == "full+other" and gw != "many" and cls == "OK":
+                    out.append(Finding("violation", c, "items of two different alternatives on one line, yet the run yields a value "
+                                                       "(one of them was silently ignored): " + ic[1]))
+                if kind == "full+other" and gw == "many" and cls != "OK":
+                    out.append(Finding("violation", c, "a repeated choice must collect both complete alternatives: " + common.show(ic)))
+                continue
             key = "%s:%s" % (wrap, "none" if not picks else ("one" if t["distinct"] == 1 and len(picks) == 1 else
                                                                "same" if t["distinct"] == 1 else "mixed"))
             dist[key] = dist.get(key, 0) + 1
